@@ -52,6 +52,15 @@ CHANGE = {
  'C13c': ("martian/syntax/compile_types.go StructType.compile", "the duplicate output-file-name check uses GetOutName (explicit names only) instead of GetOutFilename: an explicit out name equal to a sibling's default file name compiles, and post-processing silently skips the second output"),
  'C14c': ("martian/core/node.go cloneFork", "forks created at run time share the template fork's inner filePostNodes maps: a fork whose output names no file removes the argument from all siblings' sets and their files are never released"),
  'C15c': ("martian/core/pipestance.go Pipestance.Lock", "the signal handler is registered before the 'already locked' check: a refused second attach that receives a signal deletes the live owner's _lock"),
+ 'C07c': ("martian/syntax/compile_pipelines.go Pipeline.topoSort", "the loop always advances after moving a call past its last dependency, so the call that slid into the vacated slot is never examined: with two consecutive consumers declared before a map call they depend on, the second is type-checked before the producer's mapping is known (output typed one collection level short)"),
+ 'C08c': ("martian/syntax/compile_pipelines.go Pipeline.addNextDeps", "a reference to an undefined call is recorded as a nil dependency that is never stored: the transitive-closure loop finds it missing on every round and mro check / format / mrp hang"),
+ 'C09c': ("martian/syntax/parsenum.go roundUpTo", "the negative branch (round away from zero) was dropped: a negative non-integral mem_gb / vmem_gb re-parses one 1/1024 step short after every formatting pass"),
+ 'C10c': ("martian/syntax/compile_stages.go RetainParams.compile", "the sort of the stage retain list runs before the list is rebuilt from the de-duplication map: with a repeated entry the compiled order is Go map iteration order"),
+ 'C11c': ("martian/core/stage.go Fork.updateState", "join_* notifications are cached under the current attempt's uniquifier instead of the one parsed from the journal file name: a late notification of a superseded join attempt is taken for the current attempt"),
+ 'C16c': ("martian/syntax/parser.go IncludeFilePath", "the path-component boundary check after a string-prefix match of an MROPATH entry was dropped: with entries /s/mro and /s/mro_v2 the include of a callable in /s/mro_v2/stages is written as v2/stages/...; per-fork _invocation files no longer compile"),
+ 'C17c': ("martian/syntax/builtin_types.go BuiltinType.FilterJson", "the integrality check of a float given for an int became Trunc(x) == x: integral floats beyond int64 are accepted and rewritten to MinInt64"),
+ 'C18c': ("martian/core/jobmanager_remote.go formatArgs", "a 'do not quote twice' shortcut writes values that start and end with a double quote verbatim into the job script: the shell strips the quotes and expands what is inside"),
+ 'C19c': ("martian/syntax/refactoring/remove_input_param.go removeInputParam", "the scan of using(...) modifier bindings is skipped for calls to the edited callable: a pipeline input used only as 'disabled = self.X' on such a call is treated as unused and removed up the chain while the modifier stays"),
 }
 matrix = collections.defaultdict(list)
 mp = os.path.join(ROOT, 'matrix.jsonl')
